@@ -53,7 +53,7 @@ def _install_unique_stub(h):
         mt.MeshTet1._find_nz = _find_nz
 
 
-def adaptive_config(h, mesh, marked, pt=None, free=None, sub=None, bnd=None, history=None):
+def adaptive_config(h, mesh, marked, pt=None, free=None, sub=None, bnd=None, history=None, cls=None):
     with warnings.catch_warnings():
         warnings.simplefilter('ignore')
         _install_unique_stub(h)
@@ -71,6 +71,12 @@ def adaptive_config(h, mesh, marked, pt=None, free=None, sub=None, bnd=None, his
                     c0 = Fraction(float(nom[d, v]))
                     h.assume(h.And(P[d, v] > h.frac(c0 - Fraction(1, 16)), P[d, v] < h.frac(c0 + Fraction(1, 16))))
         names = _names(h, m)
+        base = type(m)
+        m_first = m
+        if cls is not None:
+            # straight-sided second-order class: refine it, then compare the first-order skeletons
+            import skfem as S
+            m = getattr(S, cls).from_mesh(m)
         if sub:
             m = m.with_subdomains({n: np.array(v, dtype=np.int32) for n, v in sub.items()})
         if bnd:
@@ -78,14 +84,44 @@ def adaptive_config(h, mesh, marked, pt=None, free=None, sub=None, bnd=None, his
         h.sample(dict(mesh=mesh, cells=np.asarray(m.t).T.tolist(), marked=list(map(int, marked)) if marked is not None else None,
                       history=history, subdomains=sub))
         if history is None:
-            M = m.refined(np.array(marked, dtype=np.int32))
+            import logging
+            seen = []
+
+            class _Cap(logging.Handler):
+                def emit(self, record):
+                    seen.append(record.getMessage())
+            lg = logging.getLogger('skfem.mesh.mesh')
+            old_level, cap = lg.level, _Cap()
+            lg.addHandler(cap)
+            lg.setLevel(logging.WARNING)
+            try:
+                M = m.refined(np.array(marked, dtype=np.int32))
+            finally:
+                lg.removeHandler(cap)
+                lg.setLevel(old_level)
             h.concrete('same mesh class', type(M) is type(m))
+            if cls is not None:
+                # from_mesh keeps vertex and cell numbering: the first-order mesh itself is the coarse skeleton
+                sk0, sk1 = m_first, base.from_mesh(M)
+                if sub and M.subdomains is not None:
+                    sk0 = sk0.with_subdomains({n: np.array(v, dtype=np.int32) for n, v in sub.items()})
+                    sk1 = sk1.with_subdomains({n: np.asarray(v) for n, v in M.subdomains.items()})
+                # the second-order classes refine through their first-order skeleton; names are either carried (then checked by
+                # analyse) or dropped as a whole with the library's "invalidated" warning - never kept stale
+                carried = M.subdomains is not None and sorted(M.subdomains) == sorted(sub or {})
+                dropped = M.subdomains is None and any('subdomains invalidated' in s_ for s_ in seen)
+                h.concrete('named subdomains are carried, or dropped as a whole with the "invalidated" warning', (not sub) or carried or dropped,
+                           'subdomains=%s warnings=%s' % (None if M.subdomains is None else sorted(M.subdomains), seen))
+                h.note('subdomains after refinement: %s' % ('carried' if carried else 'dropped with warning' if dropped else 'other'))
+                m, M = sk0, sk1
             analyse(h, 'marked=%s' % ','.join(map(str, marked)), m, M, 1, names, marked=list(marked))
         else:
             M = m
             for step in history:
                 if step == 'u':
                     M = M.refined(1)
+                elif step == 'u2':
+                    M = M.refined(2)             # two uniform passes in one call
                 else:
                     sel = [c for c in step if c < M.t.shape[1]]
                     M = M.refined(np.array(sel, dtype=np.int32))
@@ -138,11 +174,14 @@ def build_configs(tier, seed):
     if not quick:
         for mk in subsets(4)[::2]:
             add('tri4patch/free=4/marked=%s' % ''.join(map(str, mk)), mesh='tri4patch', marked=mk, free=[4], sub={'s0': [0], 's13': [1, 3]})
+    # straight-sided second-order triangles
+    for mk in ([0], [1], [1, 0]):
+        add('MeshTri2/tri2/marked=%s' % ''.join(map(str, mk)), mesh='tri2', marked=mk, cls='MeshTri2', nominal_path=quick, sub={'s0': [0], 's1': [1]})
     # histories on the 2-cell mesh
-    for hist in ([[0], [0]], ['u', [1]], [[1], 'u']) + (() if quick else ([[0, 1], [2]], [[0], [3], [1]])):
+    for hist in ([[0], [0]], ['u', [1]], [[1], 'u'], [[0], 'u2']) + (() if quick else ([[0, 1], [2]], [[0], [3], [1]])):
         add('tri2/free=0,3/history=%s' % str(hist).replace(' ', ''), mesh='tri2', marked=None, free=None if quick else [0, 3], nominal_path=quick,
             history=hist, sub=sub2, maxpaths=256 if quick else 4096)
-    for hist in ([[0], [1]], ['u', [0, 3]], [[2], 'u']):
+    for hist in ([[0], [1]], ['u', [0, 3]], [[2], 'u'], [[1], 'u2']):
         add('line3perm/history=%s' % str(hist).replace(' ', ''), mesh='line3perm', marked=None, history=hist, sub=sub3)
     # tetrahedra: longest-edge bisection with closure; one free vertex bounds the orderings
     for mk in ([[0], [1], [0, 1]]):
